@@ -27,7 +27,7 @@ structure Run where
 deriving Repr, DecidableEq
 
 structure View where
-  epoch : Option (Nat × Int) := none     -- (schedule, offset) while scheduled
+  epoch : Option (Nat × Int) := none     -- (schedule, offset in ms) while scheduled
   expect : Option Int := none
   run : Option Run := none
   ck : Option Int := none
@@ -67,8 +67,8 @@ def monStep (nx : Nat → Int → Option Int) (m : Mon) : Ev → Except String M
     | some (sc, off) =>
       if v.run.isSome then .error "no-overlap"                  -- never concurrently for the same task
       else if v.expect ≠ some occ then .error "consecutive-in-order-once"  -- exactly the next occurrence
-      else if occ + off > m.now then .error "never-early"       -- not before occurrence+offset
-      else if runAt ≠ occ + off then .error "run-at-is-occurrence-plus-offset"
+      else if occ * 1000 + off > m.now * 1000 then .error "never-early"   -- not before occurrence+offset (EXACT, ms)
+      else if runAt ≠ occ + off.tdiv 1000 then .error "run-at-is-occurrence-plus-offset"   -- its whole seconds
       else .ok (m.set id { v with expect := nx sc occ, run := some { occ := occ, floor := v.ck } })
   | .finish id occ =>
     let v := m.view id
@@ -102,20 +102,14 @@ instance (nx : Nat → Int → Option Int) (h : List Ev) : Decidable (Accepts nx
 
 /-- The "exactly once" half that safety cannot give (no occurrence is skipped or forgotten), in the form that can
 be judged at a quiescent moment: a scheduled task whose next occurrence is due (occurrence+offset ≤ now, with the
-EXACT offset: `frac id` is the sub-second part, in ms, of the offset of the task's current scheduling) is only waiting
-because a task on the same worker (`wk`), possibly itself, is running. Returns the ids that violate it. -/
-def dueIdle (wk : Nat → Nat) (frac : Nat → Int) (m : Mon) : List Nat :=
+EXACT offset in ms) is only waiting because a task on the same worker (`wk`), possibly itself, is running. Returns
+the ids that violate it. -/
+def dueIdle (wk : Nat → Nat) (m : Mon) : List Nat :=
   (m.views.filter (fun p =>
     match p.2.epoch, p.2.expect with
     | some (_, off), some occ =>
-      decide ((occ + off) * 1000 + frac p.1 ≤ m.now * 1000) &&
+      decide (occ * 1000 + off ≤ m.now * 1000) &&
         !(m.views.any (fun q => decide (wk q.1 = wk p.1) && q.2.run.isSome))
     | _, _ => false)).map (·.1)
-
-/-- Recorded deviation `subsecond-offset-truncated` (findings/C17.txt): the scheduler keeps `Item.Offset` in whole
-seconds (`int64(Offset().Seconds())`, truncated toward zero) and tests `next + Offset ≤ now`. With a positive
-sub-second part `frac` the run may start when the clock shows exactly occurrence + truncated offset, i.e. up to
-`frac` ms before occurrence + offset. The clause is exact: anything earlier than that is a plain never-early failure. -/
-def earlyBySubsecond (off frac occ now : Int) : Bool := decide (frac > 0) && decide (occ + off = now)
 
 end Kap.C17
